@@ -48,6 +48,46 @@ class Rw:
         return new, n
 
 
+class RwFn:
+    """A rewrite of the catalogue implemented by a function text -> (text, n_applications)."""
+
+    def __init__(self, rid, func, count=None):
+        self.rid, self.func, self.count = rid, func, count
+
+    def apply(self, text, where):
+        new, n = self.func(text)
+        if (self.count is None and n == 0) or (self.count is not None and n != self.count):
+            raise Drift("%s: rewrite %s applied %d times, expected %s" % (where, self.rid, n, self.count))
+        return new, n
+
+
+def r4_split_or_guard_arms(text):
+    """R4: a match arm `(A | B, C | D) if GUARD => { BODY }` (or-pattern AND guard, rejected by
+    Verus) is duplicated into adjacent arms, one per combination of alternatives, with the same
+    guard and body.  Only flat tuple patterns with a block body are handled."""
+    import itertools
+    n = 0
+    out = text
+    while True:
+        mask = rustscan.code_mask(out)
+        m = None
+        for mm in re.finditer(r"\(([^()=>]*?\|[^()=>]*?)\)\s+if\s+([^{}]*?)=>\s*\{", out):
+            if mask[mm.start()]:
+                m = mm
+                break
+        if not m:
+            break
+        op = m.end() - 1
+        cl = rustscan.match_brace(out, mask, op)
+        body = out[op:cl + 1]
+        comps = [[a.strip() for a in c.split("|")] for c in m.group(1).split(",")]
+        arms = "".join("(%s) if %s=> %s\n                " % (", ".join(combo), m.group(2), body)
+                       for combo in itertools.product(*comps))
+        out = out[:m.start()] + arms.rstrip() + out[cl + 1:]
+        n += 1
+    return out, n
+
+
 def strip_comments(text):
     """Remove // and /* */ comments (R1) but keep string literals intact."""
     mask = rustscan.code_mask(text)
@@ -262,6 +302,13 @@ class Fn:
                 if spec.get("decreases"):
                     ins += "    decreases %s,\n" % spec["decreases"]
                 pos = lp[k][2]
+                if spec.get("body_start") or spec.get("body_end"):
+                    m2 = rustscan.code_mask(body)
+                    close = rustscan.match_brace(body, m2, pos)
+                    if spec.get("body_end"):
+                        body = body[:close] + spec["body_end"].rstrip("\n") + "\n" + body[close:]
+                    if spec.get("body_start"):
+                        body = body[:pos + 1] + "\n" + spec["body_start"].rstrip("\n") + "\n" + body[pos + 1:]
                 body = body[:pos] + ins + body[pos:]
         # proof blocks at anchors
         for (anchor, side, text) in self.proofs:
@@ -315,6 +362,8 @@ class Fn:
                 txt += "}\n"
             txt += "/*@ENDFN*/\n"
             unit.register_fn(fid, kind, self, [c for c in ens], props)
+            unit.fns[fid]["named_asserts"] = sorted(set(re.findall(r"/\*@AS:(.*?)\*/", txt)))
+            unit.fns[fid]["loop_invariants"] = sum(len(v.get("invariant", [])) + len(v.get("invariant_except_break", [])) for v in self.loops.values())
             return txt
 
         if self.stub:
